@@ -545,7 +545,7 @@ theorem total_tryFinishStop (i : Nat) (w : W) : total i w.tryFinishStop = total 
   split
   · have hsup : ∀ (e : Env) (s : List Nat), cEnv i { e with sup := s } = cEnv i e := fun _ _ => rfl
     simp only [total]
-    rw [hsup, cEnv_foldl_dropMsg, cEnv_emit _ _ _ rfl]
+    rw [hsup, cEnv_killAll, cEnv_foldl_dropMsg, cEnv_emit _ _ _ rfl]
     simp only [cInbox, List.countP_nil]
     omega
   · rfl
